@@ -99,6 +99,7 @@ fn run_line(line: &str) -> Result<String, String> {
         "rt" => suite_rt(&mut t),
         "rd" => suite_rd(&mut t),
         "ard" => suite_ard(&mut t),
+        "sk" => suite_sk(&mut t),
         s => Err(format!("unknown suite {s}")),
     }
 }
@@ -362,4 +363,106 @@ fn suite_ard(t: &mut Toks) -> Result<String, String> {
     }
     out.push_str(&format!(" MEM {peak}"));
     Ok(out)
+}
+
+/// sk <pk> <sync|async[:schedule]> <ttype code> <hex> <next ttype code|->
+///   skips one value of the given wire type with the protocol's `skip`, then (optionally) reads a
+///   value of the next type with the SAME protocol object
+///   -> ok <reported count|-> REM <k> [NEXT <value> REM <k2> | NEXT err <class>] | err <class>
+fn suite_sk(t: &mut Toks) -> Result<String, String> {
+    let pk = parse_pk(t.next()?)?;
+    let mode = t.next()?;
+    let ty = t.next_usize()? as u8;
+    let input = unhex(t.next()?)?;
+    let next = t.next()?;
+    let next: Option<u8> = if next == "-" { None } else { Some(next.parse::<u8>().map_err(|e| e.to_string())?) };
+    if mode == "sync" {
+        let mut b = Bytes::copy_from_slice(&input);
+        fn go<P: TInputProtocol>(p: &mut P, ty: u8, next: Option<u8>) -> (Result<usize, ThriftException>, Option<Result<TVal, ThriftException>>) {
+            match p.skip(interp::tt(ty)) {
+                Err(e) => (Err(e), None),
+                Ok(n) => (Ok(n), next.map(|nt| read_val(p, nt, BinApi::Bytes))),
+            }
+        }
+        // remaining length must be observed after the protocol object is gone
+        let (r, nx, rem_after_skip);
+        macro_rules! run {
+            ($p:expr) => {{
+                let mut p = $p;
+                let sk = p.skip(interp::tt(ty));
+                match sk {
+                    Err(e) => (Err(e), None, 0usize),
+                    Ok(n) => {
+                        let rem = p.buf().len();
+                        let nx = next.map(|nt| read_val(&mut p, nt, BinApi::Bytes));
+                        (Ok(n), nx, rem)
+                    }
+                }
+            }};
+        }
+        let _ = go::<TBinaryProtocol<&mut Bytes>>;
+        (r, nx, rem_after_skip) = match pk {
+            Pk::Binary => run!(TBinaryProtocol::new(&mut b, false)),
+            Pk::BinaryLe => run!(TBinaryLeProtocol::new(&mut b, false)),
+            Pk::Compact => run!(TCompactInputProtocol::new(&mut b)),
+        };
+        Ok(match r {
+            Err(e) => show_err(&e),
+            Ok(n) => {
+                let mut out = format!("ok {n} REM {rem_after_skip}");
+                match nx {
+                    None => {}
+                    Some(Err(e)) => out.push_str(&format!(" NEXT {}", show_err(&e))),
+                    Some(Ok(v)) => {
+                        out.push_str(" NEXT ");
+                        show_val(&mut out, &v);
+                        out.push_str(&format!(" REM {}", b.len()));
+                    }
+                }
+                out
+            }
+        })
+    } else {
+        let sched = mode.strip_prefix("async:").unwrap_or("all");
+        let (cuts, pend) = parse_cuts(sched, input.len())?;
+        use pilota::thrift::{binary::TAsyncBinaryProtocol, binary_le::TAsyncBinaryProtocol as TAsyncBinaryLeProtocol, compact::TAsyncCompactProtocol, TAsyncInputProtocol};
+        let mut rd = asyncrd::Scripted::new(input.to_vec(), cuts, pend);
+        let budget = (input.len() + 16) * (pend + 2) * 8 + 100_000;
+        macro_rules! go {
+            ($p:expr) => {{
+                let mut p = $p;
+                asyncrd::block_on(
+                    async {
+                        p.skip(interp::tt(ty)).await?;
+                        let pulled = p_handed(&p);
+                        let _ = pulled;
+                        match next {
+                            None => Ok(None),
+                            Some(nt) => Ok(Some(asyncrd::aread_val(&mut p, nt, asyncrd::ABinApi::Bytes).await)),
+                        }
+                    },
+                    budget,
+                )
+            }};
+        }
+        fn p_handed<T>(_: &T) -> usize { 0 }
+        let r: Option<Result<Option<Result<TVal, ThriftException>>, ThriftException>> = match pk {
+            Pk::Binary => go!(TAsyncBinaryProtocol::new(&mut rd)),
+            Pk::BinaryLe => go!(TAsyncBinaryLeProtocol::new(&mut rd)),
+            Pk::Compact => go!(TAsyncCompactProtocol::new(&mut rd)),
+        };
+        let pulled = rd.handed_out;
+        Ok(match r {
+            None => "HANG".to_string(),
+            Some(Err(e)) => show_err(&e),
+            Some(Ok(None)) => format!("ok - REM {}", input.len() - pulled),
+            Some(Ok(Some(Err(e)))) => format!("ok - NEXT {}", show_err(&e)),
+            Some(Ok(Some(Ok(v)))) => {
+                let mut out = String::from("ok - NEXT ");
+                show_val(&mut out, &v);
+                out.push_str(&format!(" REM {}", input.len() - pulled));
+                out
+            }
+        })
+    }
 }
